@@ -41,7 +41,7 @@ import (
 const c05Sec = int64(time.Second)
 
 type c05Params struct {
-	SysDefault, SysMax                                time.Duration
+	SysDefault, SysMax                                 time.Duration
 	Increment, BackendTTL, Period, BackendMax, ExplMax time.Duration
 	ZeroStart                                          bool
 	Elapsed                                            time.Duration
@@ -380,7 +380,7 @@ func TestVerif_C05_RenewSequences(t *testing.T) {
 	rapid.Check(t, func(rt *rapid.T) {
 		base := c05DrawParams(rt, false)
 		base.ZeroStart, base.Elapsed, base.ElapsedClass = true, 0, "issue"
-		base.Increment = 0 // issuance has no increment (request_handling.go passes 0)
+		base.Increment = 0                                  // issuance has no increment (request_handling.go passes 0)
 		viaExtend := rapid.IntRange(0, 2).Draw(rt, "route") // 0 direct, 1 LeaseExtend+Secret, 2 LeaseExtend+Auth
 		if viaExtend == 1 {
 			// secrets have neither period nor explicit max (expiration.go Renew passes 0 for both)
